@@ -148,6 +148,15 @@ func runSum(c *eng.Ctx, cf cfg, op string, exhaustive bool, budget int) {
 		api = "rlwe.Evaluator." + op
 	}
 	pairs := pairsFor(rnd, op, total, cols, exhaustive, budget)
+	if cf.Dense > 0 {
+		pairs = pairs[:0]
+		for k := 3; (1<<k)-1 <= min(cf.Dense, total); k++ {
+			pairs = append(pairs, pair{1, (1 << k) - 1})
+			if k >= 7 && 3*((1<<k)-1) <= total {
+				pairs = append(pairs, pair{3, (1 << k) - 1})
+			}
+		}
+	}
 	c.Sample(map[string]any{"kind": "sum", "op": op, "cfg": cf, "pairs": len(pairs), "slots": total, "cols": cols, "first_pairs": pairs[:min(6, len(pairs))]})
 
 	// refused arguments must come back as errors, not panics
